@@ -34,10 +34,10 @@ def _watchdog(on: bool):
     if threading.current_thread() is not threading.main_thread():
         return
     if on:
-        signal.signal(signal.SIGALRM, _on_alarm)
-        signal.setitimer(signal.ITIMER_REAL, HANG_SECONDS)
+        signal.signal(signal.SIGPROF, _on_alarm)
+        signal.setitimer(signal.ITIMER_PROF, HANG_SECONDS)
     else:
-        signal.setitimer(signal.ITIMER_REAL, 0)
+        signal.setitimer(signal.ITIMER_PROF, 0)
 
 
 def _fire(kind, node=None, others=()):
